@@ -134,13 +134,30 @@ def run(module, cfg=None, *, workers=None, env=None, extra=(), timeout=3600, ove
     return TLCResult(out, rc, time.time() - t0)
 
 
-FAIL_RE = re.compile(r'^<<"FAIL", (-?\d+), (\{.*\})>>\s*$')
-NOTE_RE = re.compile(r'^<<"NOTE", (-?\d+), (.*)>>\s*$')
-DONE_RE = re.compile(r'^<<"DONE", (\d+)>>\s*$')
+FAIL_RE = re.compile(r'^<<\s*"FAIL",\s*(-?\d+),\s*(\{.*\})\s*>>\s*$')
+NOTE_RE = re.compile(r'^<<\s*"NOTE",\s*(-?\d+),\s*(.*?)\s*>>\s*$')
+DONE_RE = re.compile(r'^<<\s*"DONE",\s*(\d+)\s*>>\s*$')
 
 
 def _parse_set(s):
     return sorted(re.findall(r'"([^"]*)"', s))
+
+
+def printed_blocks(out):
+    """TLC starts every printed value at column 0 and indents the continuation lines of a value
+    it wraps (values wider than 80 columns are pretty-printed over several lines).  Yield each
+    printed value that starts with << as ONE line."""
+    cur = None
+    for line in out.splitlines():
+        if line[:1] in (" ", "\t"):
+            if cur is not None:
+                cur.append(line.strip())
+            continue
+        if cur is not None:
+            yield " ".join(cur)
+        cur = [line.rstrip()] if line.startswith("<<") else None
+    if cur is not None:
+        yield " ".join(cur)
 
 
 def _validate_chunk(args):
@@ -149,7 +166,7 @@ def _validate_chunk(args):
     e.update(env or {})
     r = run(module, cfg, workers=1, env=e, overrides=overrides, timeout=timeout, tag=os.path.basename(path))
     fails, notes, done = [], [], None
-    for line in r.out.splitlines():
+    for line in printed_blocks(r.out):
         m = FAIL_RE.match(line)
         if m:
             fails.append((int(m.group(1)), _parse_set(m.group(2))))
